@@ -75,6 +75,15 @@ PROP = {
         "Momo.HTL.C04_hash_pool_traffic",
         "Momo.HTL.C04_hash_step_strong",
         "Momo.HTL.C04_hash_reachable_ok",
+        "Momo.MML.C04_multimap_add_strong",
+        "Momo.MML.C04_multimap_addAt_strong",
+        "Momo.MML.C04_multimap_insertKey_strong",
+        "Momo.MML.C04_multimap_remove_strong",
+        "Momo.MML.C04_multimap_removeKey_strong",
+        "Momo.MML.C04_multimap_constructor_clean",
+        "Momo.MML.C04_multimap_step_strong",
+        "Momo.MML.C04_multimap_usable_after",
+        "Momo.MML.C04_multimap_reachable_ok",
     ],
     "harnesses": [
         {"name": "c04_strong", "src": "c04_strong.cpp", "sanitize": "asan", "timeout_quick": 600},
@@ -101,6 +110,8 @@ PROP = {
         {"name": "c03_htledger_open", "src": "c03_htledger.cpp", "sanitize": "asan", "flags": ["-DVF_PART=0"], "timeout_quick": 600},
         {"name": "c03_htledger_open2", "src": "c03_htledger.cpp", "sanitize": "asan", "flags": ["-DVF_PART=1"], "timeout_quick": 600},
         {"name": "c03_htledger_chain", "src": "c03_htledger.cpp", "sanitize": "asan", "flags": ["-DVF_PART=2"], "timeout_quick": 600},
+        {"name": "c03_mmledger", "src": "c03_mmledger.cpp", "sanitize": "asan", "flags": ["-DVF_PART=0"], "timeout_quick": 600},
+        {"name": "c03_mmledger2", "src": "c03_mmledger.cpp", "sanitize": "asan", "flags": ["-DVF_PART=1"], "timeout_quick": 600},
     ],
     "rule": ("(a) RelocateCreate on ElemNM (nothrow-move) and ElemCO (copy-only, throwing) for count 0..5 x every failing step (model-level lines); "
              "(b) sweeps: Array / ArrayIntCap<3> / SegmentedArray(sqrt, cnst) AddBack (const&, &&, aliasing own element), SetCount, Reserve, Shrink, "
